@@ -11,7 +11,15 @@ namespace Imdlv.CreateFx
 
 inductive Node where
   | absent | file (content : List UInt8) | dir
+  /-- a dangling symbolic link (its target does not exist) -/
+  | link (target : String)
 deriving DecidableEq, Repr
+
+/-- `Path::exists`: follows symbolic links, so a dangling link "does not exist" -/
+def present : Node → Bool
+  | .file _ => true
+  | .dir => true
+  | _ => false
 
 abbrev FS := String → Node
 
@@ -57,27 +65,42 @@ inductive Decision where
   | fail | noop | write (out : String)
 deriving DecidableEq, Repr
 
-/-- the decision `Create::run` takes, in the order it takes it -/
-def decision (fs : FS) (r : Req) : Decision :=
+/-- the guarded open at the end: `create_new` (`O_CREAT|O_EXCL`, which refuses anything that is
+there, symbolic links included) or, under `--force`, `create+truncate` (which follows a link) -/
+def openWrite (fs : FS) (force : Bool) (out : String) : Decision :=
+  match fs out with
+  | .dir => .fail                                  -- opening a directory for writing fails
+  | .absent => .write out
+  | .file _ => if force then .write out else .fail -- EEXIST
+  | .link t => if force then .write t else .fail   -- EEXIST; forced: written through the link
+
+/-- the decision `Create::run` takes, in the order it takes it. `fsCheck` is the file system when
+the output path is resolved and checked, `fsOpen` the one at the time of the final open (other
+processes may have changed it in between: hashing can take arbitrarily long). -/
+def decisionAt (fsCheck fsOpen : FS) (r : Req) : Decision :=
   if r.fault = .beforeOutputCheck then .fail else
-  match finalPath fs r with
+  match finalPath fsCheck r with
   | none =>
     -- standard output: nothing on disk changes
     if r.fault = .whileHashing then .fail else .noop
   | some out =>
-    if r.force = false ∧ fs out ≠ .absent then .fail          -- OutputExists
+    if r.force = false ∧ present (fsCheck out) = true then .fail   -- OutputExists
     else if r.fault = .whileHashing then .fail
     else if r.dryRun = true then .noop
     else if r.fault = .atOpen then .fail
-    else if fs out = .dir then .fail                            -- opening a directory for writing fails
-    else .write out
+    else openWrite fsOpen r.force out
 
-/-- `Create::run` as a file-system transformer -/
-def create (fs : FS) (r : Req) : FS × Outcome :=
-  match decision fs r with
-  | .fail => (fs, .error)
-  | .noop => (fs, .ok)
-  | .write out => (update fs out (.file r.bytes), .ok)
+/-- `Create::run` as a file-system transformer, with interference between check and open -/
+def createAt (fsCheck fsOpen : FS) (r : Req) : FS × Outcome :=
+  match decisionAt fsCheck fsOpen r with
+  | .fail => (fsOpen, .error)
+  | .noop => (fsOpen, .ok)
+  | .write out => (update fsOpen out (.file r.bytes), .ok)
+
+/-- without interference -/
+def decision (fs : FS) (r : Req) : Decision := decisionAt fs fs r
+
+def create (fs : FS) (r : Req) : FS × Outcome := createAt fs fs r
 
 /-- read-only commands -/
 def readOnly (fs : FS) : FS := fs
